@@ -142,7 +142,8 @@ pub fn gen_input(rng: &mut Rng, kind: u64, small: bool) -> Input {
             Input { bytes: rng.bytes(len), what: "pure random bytes".to_string(), class: "random" }
         }
         8 => {
-            let n = if small { 4 + rng.usize_below(8) } else { 4 + rng.usize_below(120) };
+            // now and then a table with thousands of symbols (one bucket: long chains)
+            let n = if small { 4 + rng.usize_below(8) } else if rng.chance(1, 24) { 4200 + rng.usize_below(1500) } else { 4 + rng.usize_below(120) };
             let cyc = 1 + rng.usize_below(n);
             let v = rng.next_u64();
             let h = adversarial::sysv_cycle(rng, enc, n, cyc, v);
